@@ -7,7 +7,15 @@ groups only for the sum; cases outside the quantifier executed and tallied but n
 within 4 ulp, cubic condition-scaled 1e-12 because its coefficients go through BLAS `np.dot`): `dutils.aggregate`, `dutils.flathomogen` (Python API on the extension
 module rebuilt from the working tree) and `c_aggregate` / `c_flathomogen` through ctypes on libhykern.so
 (return code resolved against the current source line, `iend`, untouched tail of the output buffer);
-`dutils.monthly2daily` flat and cubic (values and the number of days attributed to every month).
+`dutils.monthly2daily` flat and cubic (values and the number of days attributed to every month; request `m2ds`: the
+returned daily Series against the model's day-by-day `m2dSeries`, every calendar-day stamp compared).
+Round 7: the SPECIFICATION functions of the theorems (`aggregateSpec`, `aggregatePerGroup`, `flathomogenSpec`,
+`flathomogenPerGroup` of Model/C08Spec.lean) are evaluated in Float by the driver on every case (`aggspec`, `homogspec`)
+and compared with the real code under the same relation, with a bit-for-bit self-check kernel model = per-group fold =
+specification; the kernels at buffer level (`aggbuf`, `homogbuf`: sentinel-filled `outputs`, `iend` = 77 before the call,
+untouched tail compared bit for bit); the Cython entry points called directly (`pyxagg`, `pyxhomog`: mismatched buffer
+lengths, `iend` of length 0 / 2, scalars beyond C int); the wrappers written through the buffers (`aggwb`, `homogwb`);
+a float64 aggregation index (`aggwf`); `stampinfo` (Stamp.valid / chrono against python datetime order).
 Oracle (failing-input search on the real code only, independent of the model): pandas-free group-by with exact
 rationals — one output per run, sum / mean within the rounding bound, max / tail exact, NaN policy, decreasing
 index rejected, totals conserved; flathomogen keeps missing, writes the group mean, preserves group totals;
@@ -26,7 +34,11 @@ stamps (then fed to aggregate), monthly2daily with missing months in the cubic b
 default and rejected interpolation names.
 History stream: 2-4 step histories on ONE set of arrays / ONE Series - call, then (edit the returned array in place |
 edit an input value / the index in place, equal size | other operator, maxnan, function | pickle / deepcopy round
-trip), call again - every answer compared with the model and the oracle on the caller's current state.
+trip), call again - every answer compared with the model and the oracle on the caller's current state; the whole
+history (set-value / set-index / overwrite-result / call operations) is then replayed by the model's `histRun`
+(request `hist`): answers, final arguments and every array handed out.
+Probes at the excluded points of theorem hypotheses (outside the quantifier, tallied): hourly `compute_aggindex` of
+years 2148..2260 (int32 wrap), negative months in monthly2daily (flat masks them), float / NaN / huge index values.
 A case is non-trivial when the call is accepted and returns at least one non-NaN value.
 """
 import calendar
@@ -178,6 +190,10 @@ def nondecreasing(idx):
 
 def isnan(x):
     return x != x
+
+
+def inInt32(i):
+    return I32MIN <= i <= I32MAX
 
 
 def fsum_exact(xs):
@@ -332,10 +348,104 @@ def agree_homog(idx, vals, maxnan, impl, model):
     return True
 
 
+def agree_spec(kind, args, impl, model):
+    """`aggspec` / `homogspec`: the SPECIFICATION side of the theorems evaluated in Float by the driver.
+    reply = "ok [spec] [per-group fold]"; both are compared with the real result like the kernel model is."""
+    ri, rm = rejected(impl), rejected(model)
+    if ri or rm:
+        return ri and rm
+    parts = model.split(" ")
+    if len(parts) != 5 or parts[3] != "kernel=same":
+        return False                      # the loop model and its per-group form differ: a theorem contradicted in Float
+    if kind == "aggspec" and args[2] in (2, 3) and parts[4] != "spec=same":
+        return False                      # max / tail: specification = kernel over ANY carrier
+    if parts[4] != "spec=same" and moderate(args[1]):
+        return False                      # finite inputs: `x + 0 = x` holds along the kernel's running sum
+    if impl == "ok " + parts[1] and parts[4] == "spec=same":
+        return True                       # bit-identical
+    f = agree_agg if kind == "aggspec" else agree_homog
+    return f(*args, impl, "ok " + parts[1]) and f(*args, impl, "ok " + parts[2])
+
+
+def agree_buf(kind, args, impl, model):
+    """buffer-level kernels: "<0|error> [outputs] [iend]" - rejected vs accepted; on success `iend`, the values written
+    (same relation as the wrapper's) and the untouched tail of the caller's buffer, bit for bit"""
+    pi, pm = impl.split(" "), model.split(" ")
+    ri, rm = pi[0] != "0", pm[0] != "0"
+    if ri or rm:
+        return ri and rm
+    a, b = C.parse_flist(pi[1]), C.parse_flist(pm[1])
+    if len(a) != len(b):
+        return False
+    if kind == "aggbuf":
+        if pi[2] != pm[2]:
+            return False
+        k = int(pm[2])
+        if not (0 <= k <= len(a)):
+            return False
+        if not agree_agg(*args, "ok " + C.flist(a[:k]), "ok " + C.flist(b[:k])):
+            return False
+        return C.flist(a[k:]) == C.flist(b[k:])
+    return agree_homog(*args, "ok " + C.flist(a), "ok " + C.flist(b))
+
+
+def agree_hist(mode, impl, model):
+    """a whole history: "<answer>|<answer>|... ;idx=[..] ;vals=[..] ;outs=[..]|[..]" - every answer under the relation of
+    its own call, the final arguments bit for bit (no call writes them), every array handed out: overwritten ones bit for
+    bit, the others under the relation of the call that returned them"""
+    _, call_modes, scribbled = mode
+    try:
+        ia, ii, iv, io = impl.split(" ;")
+        ma, mi, mv, mo = model.split(" ;")
+    except ValueError:
+        return False
+    if ii != mi or iv != mv:
+        return False
+    A, B = ia.split("|") if ia else [], ma.split("|") if ma else []
+    if len(A) != len(B) or len(A) != len(call_modes):
+        return False
+    producers = []
+    for x, y, cm in zip(A, B, call_modes):
+        f = agree_agg if cm[0] == "agg" else agree_homog
+        if not f(*cm[1:], x, y):
+            return False
+        if not rejected(x):
+            producers.append(cm)
+    io, mo = io[len("outs="):], mo[len("outs="):]
+    O, P = io.split("|") if io else [], mo.split("|") if mo else []
+    if len(O) != len(P) or len(O) != len(producers):
+        return False
+    for r, (x, y, cm) in enumerate(zip(O, P, producers)):
+        if r in scribbled:
+            if x != y:
+                return False
+        else:
+            f = agree_agg if cm[0] == "agg" else agree_homog
+            if not f(*cm[1:], "ok " + x, "ok " + y):
+                return False
+    return True
+
+
+def agree_m2ds(mode, impl, model):
+    """`m2ds`: the returned daily Series - calendar-day stamps exactly, values like `m2d`"""
+    ri, rm = rejected(impl), rejected(model)
+    if ri or rm:
+        return ri and rm
+    _, ic, iv = impl.split(" ")
+    _, mc, mv, flag = model.split(" ")
+    if ic != mc or flag != "stamped=same":
+        return False                      # day stamps differ, or the model's Series is not its own stamped per-month lists
+    a, b = C.parse_flist(iv), C.parse_flist(mv)
+    tol = (16e-12 if mode[1] == "cubic" else 4 * EPS52) * max(mode[2], 1e-300)
+    return len(a) == len(b) and all((isnan(x) and isnan(y)) or abs(x - y) <= tol for x, y in zip(a, b))
+
+
 def agree_m2d(mode, impl, model):
     ri, rm = rejected(impl), rejected(model)
     if ri or rm:
         return ri and rm
+    if len(impl.split(" ")) != 3 or len(model.split(" ")) != 3:
+        return False
     _, ic, iv = impl.split(" ")
     _, mc, mv = model.split(" ")
     a, b = C.parse_flist(iv), C.parse_flist(mv)
@@ -445,6 +555,49 @@ class Real:
             notes.append(f"iend={k} outside 1..{n}")
             k = max(0, min(k, n))
         return "ok " + C.flist(o[:k]), notes
+
+    def c_aggregate_buf(self, idx, vals, op, maxnan, buf, iend0):
+        """kernel through ctypes on caller-provided `outputs` / `iend`: "<0|error name> [outputs after] iend after" """
+        np = self.np
+        n = len(idx)
+        a = np.array(idx, dtype=np.int32)
+        x = np.array(vals, dtype=np.float64)
+        o = np.array(buf, dtype=np.float64)
+        iend = np.array([iend0], dtype=np.int32)
+        p = lambda arr, t: arr.ctypes.data_as(ctypes.POINTER(t))
+        ierr = self.lib.c_aggregate(ctypes.c_int(n), ctypes.c_int(op), ctypes.c_int(maxnan), p(a, ctypes.c_int),
+                                    p(x, ctypes.c_double), p(o, ctypes.c_double), p(iend, ctypes.c_int))
+        return ("0" if ierr == 0 else self.err.name(ierr)) + " " + C.flist(o) + " " + str(int(iend[0]))
+
+    def c_flathomogen_buf(self, idx, vals, maxnan, buf):
+        np = self.np
+        n = len(idx)
+        a = np.array(idx, dtype=np.int32)
+        x = np.array(vals, dtype=np.float64)
+        o = np.array(buf, dtype=np.float64)
+        p = lambda arr, t: arr.ctypes.data_as(ctypes.POINTER(t))
+        ierr = self.lib.c_flathomogen(ctypes.c_int(n), ctypes.c_int(maxnan), p(a, ctypes.c_int),
+                                      p(x, ctypes.c_double), p(o, ctypes.c_double))
+        return ("0" if ierr == 0 else self.err.name(ierr)) + " " + C.flist(o)
+
+    def pyx(self, fn, *args):
+        """the Cython entry point called directly on the caller's buffers"""
+        mod = getattr(self.dutils, "c_hydrodiy_data", None)
+        if mod is None:
+            return None
+        try:
+            ierr = getattr(mod, fn)(*args)
+        except OverflowError:
+            return "err intOverflow"
+        except AssertionError:
+            return "err assertFailed"
+        except Exception as e:  # noqa
+            return f"raised {type(e).__name__}"
+        outs = args[-2] if fn == "aggregate" else args[-1]
+        rep = ("0" if ierr == 0 else self.err.name(int(ierr))) + " " + C.flist(outs)
+        if fn == "aggregate":
+            rep += " " + str(int(args[-1][0]))
+        return rep
 
     def c_flathomogen(self, idx, vals, maxnan):
         np = self.np
@@ -612,6 +765,15 @@ def body(ctx):
         for nt in notes:
             if inq:
                 ctx.disagree("c_aggregate: " + nt, case)
+        # the specification side of aggregate_spec / aggregate_per_group_any_carrier, run by the driver in Float
+        if op in (0, 1, 2, 3):
+            add("aggregate vs specification", f"aggspec {op} {maxnan} {C.ilist(idx)} {C.flist(vals)}", impl, case,
+                mode=("aggspec", (idx, vals, op, maxnan)), inq=inq)
+        # the kernel on the caller's buffers: outputs pre-filled with a sentinel, iend with 77
+        if len(idx) == len(vals) and len(idx) >= 1 and all(I32MIN <= i <= I32MAX for i in idx) and inInt32(op) and inInt32(maxnan):
+            sent = [real.SENT + j for j in range(len(idx))]
+            add("c_aggregate(buffers)", f"aggbuf {op} {maxnan} {C.ilist(idx)} {C.flist(vals)} {C.flist(sent)} 77",
+                real.c_aggregate_buf(idx, vals, op, maxnan, sent, 77), case, mode=("aggbuf", (idx, vals, op, maxnan)), inq=inq)
         nontriv = out is not None and any(not isnan(o) for o in out)
         ctx.count(("agg", tuple(idx), C.flist(vals), op, maxnan), nontriv,
                   f"agg/op={op}/" + ("rejected" if out is None else branch),
@@ -628,6 +790,12 @@ def body(ctx):
         rel = ("homog", idx, vals, maxnan)
         add("flathomogen(py)", req, impl, case, mode=rel, inq=inq)
         add("c_flathomogen(ctypes)", req, real.c_flathomogen(idx, vals, maxnan), case, mode=rel, inq=inq)
+        add("flathomogen vs specification", f"homogspec {maxnan} {C.ilist(idx)} {C.flist(vals)}", impl, case,
+            mode=("homogspec", (idx, vals, maxnan)), inq=inq)
+        if len(idx) == len(vals) and len(idx) >= 1 and all(I32MIN <= i <= I32MAX for i in idx) and inInt32(maxnan):
+            sent = [real.SENT + j for j in range(len(idx))]
+            add("c_flathomogen(buffers)", f"homogbuf {maxnan} {C.ilist(idx)} {C.flist(vals)} {C.flist(sent)}",
+                real.c_flathomogen_buf(idx, vals, maxnan, sent), case, mode=("homogbuf", (idx, vals, maxnan)), inq=inq)
         nontriv = out is not None and any(not isnan(o) for o in out)
         ctx.count(("homog", tuple(idx), C.flist(vals), maxnan), nontriv,
                   "homog/" + ("rejected" if out is None else branch))
@@ -785,9 +953,16 @@ def body(ctx):
             y0, m0 = rng.randint(1896, 2104), rng.randint(1, 12)
         r = rng.random()
         k = rng.randint(2, 4) if r < 0.25 else rng.randint(2, 40) if r < 0.9 else rng.randint(41, ctx.scale(120, 300))
-        vk = rng.choice(["int", "unif", "zeros", "big", "dyadic"])
+        vk = rng.choice(["int", "unif", "zeros", "big", "dyadic", "const", "single"])
         vals = []
-        for _ in range(k):
+        if vk == "const":
+            # every month the same (all zero included): what a "nothing to interpolate" shortcut would take
+            vals = [rng.choice([0.0, 0.0, 31.0, float(rng.randint(1, 400)), rng.uniform(0, 300)])] * k
+        elif vk == "single":
+            # one wet month in a dry series, at either end or inside
+            vals = [0.0] * k
+            vals[rng.choice([0, k - 1, rng.randrange(k)])] = rng.choice([1.0, 62.0, rng.uniform(0, 500)])
+        for _ in range(0 if vk in ("const", "single") else k):
             if vk == "int":
                 vals.append(float(rng.randint(0, 400)))
             elif vk == "unif":
@@ -802,8 +977,13 @@ def body(ctx):
         minthr = 0.0
         if rng.random() < 0.25:
             # missing months / another threshold (both branches): correspondence only (the property has complete series)
-            if rng.random() < 0.5:
+            q = rng.random()
+            if q < 0.4:
                 vals = [NAN if rng.random() < 0.2 else v for v in vals]
+            elif q < 0.6:
+                # the excluded points of the non-negativity hypothesis: a negative month is masked entirely by the
+                # flat branch (flatMonth_negative_masked) and goes through the cubic one like any value
+                vals = [-v - 1.0 if rng.random() < 0.3 else v for v in vals]
             else:
                 minthr = rng.choice([0.5, 1.0, 3.0, -2.0])
         m2d_case(ctx, real, add, y0, m0, vals, interp, minthr)
@@ -828,6 +1008,10 @@ def glue_stream(ctx, real, add):
 
     def cmp(tag, req, impl, case, branch, rel="exact", inq=False):
         add(tag, req, impl, case, mode=rel, inq=inq)
+        # the same wrapper written line by line through the Cython layer and the buffers (aggregateWB / flathomogenWB)
+        if req.startswith("aggw ") or req.startswith("homogw "):
+            head, rest = req.split(" ", 1)
+            add(tag + " through buffers", head + "b " + rest, impl, case, mode=rel, inq=inq)
         ctx.count((tag, req), impl.startswith("ok"), "glue/" + branch)
 
     big = 2 ** 31
@@ -836,10 +1020,71 @@ def glue_stream(ctx, real, add):
         idx, _ = gen_index(rng, n)
         vals, bounds, _ = gen_values(rng, idx)
         op, maxnan = rng.randint(0, 3), gen_maxnan(rng, vals, bounds)
-        kind = rng.choice(["mismatch", "op_overflow", "maxnan_overflow", "wrap", "empty", "defaults", "dtype", "keywords"])
+        kind = rng.choice(["mismatch", "op_overflow", "maxnan_overflow", "wrap", "empty", "defaults", "dtype", "keywords", "pyx", "pyx", "float_index"])
         x = np.array(vals, dtype=np.float64)
         a = np.array(idx, dtype=np.int64)
-        if kind == "mismatch":
+        if kind == "pyx":
+            # the Cython entry points called directly on caller-provided buffers (another public route to the kernels):
+            # equal or unequal buffer lengths, iend of length 1 or 2, scalars inside / outside C int
+            a32 = np.array(idx, dtype=np.int32)
+            lo = rng.choice([n, n, n, n - 1, n + 1])
+            lx = rng.choice([n, n, n, n + 1]) if n > 1 else n
+            li = rng.choice([1, 1, 1, 2, 0])
+            o2, m2 = op, maxnan
+            if rng.random() < 0.15:
+                o2 = rng.choice([big, -big - 1, 2 ** 40])
+            if rng.random() < 0.15:
+                m2 = rng.choice([big, -big - 1, 2 ** 40])
+            xs = (vals + [1.5])[:lx] if lx > n else vals[:lx]
+            if lx < 1 or lo < 0:
+                continue
+            sent = [real.SENT + j for j in range(lo)]
+            ie = [77, 78][:li]
+            xarr, oarr, iarr = np.array(xs, dtype=np.float64), np.array(sent, dtype=np.float64), np.array(ie, dtype=np.int32)
+            impl = real.pyx("aggregate", o2, m2, a32, xarr, oarr, iarr)
+            case = {"aggindex": idx, "inputs": C.flist(xs), "outputs_len": lo, "iend_len": li, "operator": o2, "maxnan": m2}
+            if impl is not None:
+                if impl.startswith("err") or impl.startswith("raised"):
+                    cmp("c_hydrodiy_data.aggregate", f"pyxagg {o2} {m2} {C.ilist(idx)} {C.flist(xs)} {C.flist(sent)} {C.ilist(ie)}", impl, case, kind)
+                else:
+                    cmp("c_hydrodiy_data.aggregate", f"pyxagg {o2} {m2} {C.ilist(idx)} {C.flist(xs)} {C.flist(sent)} {C.ilist(ie)}", impl, case, kind,
+                        ("aggbuf", (idx, xs, o2, m2)), in_quantifier(idx, xs, o2, m2))
+            oarr2 = np.array(sent, dtype=np.float64)
+            impl = real.pyx("flathomogen", m2, a32, xarr, oarr2)
+            if impl is not None:
+                if impl.startswith("err") or impl.startswith("raised"):
+                    cmp("c_hydrodiy_data.flathomogen", f"pyxhomog {m2} {C.ilist(idx)} {C.flist(xs)} {C.flist(sent)}", impl, case, kind)
+                else:
+                    cmp("c_hydrodiy_data.flathomogen", f"pyxhomog {m2} {C.ilist(idx)} {C.flist(xs)} {C.flist(sent)}", impl, case, kind,
+                        ("homogbuf", (idx, xs, m2)), in_quantifier(idx, xs, 0, m2))
+        elif kind == "float_index":
+            # a float64 aggregation index: astype(np.int32) truncates toward zero (NaN / beyond int32 -> INT_MIN on x86-64)
+            fk = rng.choice(["frac", "frac", "int_valued", "around_zero", "nan", "huge"])
+            base = sorted(rng.uniform(-6, 6) for _ in range(n))
+            if fk == "int_valued":
+                fidx = [float(i) for i in idx]
+            elif fk == "around_zero":
+                fidx = sorted(rng.choice([-1.5, -1.0, -0.99, -0.5, -0.0, 0.0, 0.25, 0.99, 1.0, 1.5]) for _ in range(n))
+            elif fk == "nan":
+                fidx = [NAN if rng.random() < 0.3 else b for b in base]
+            elif fk == "huge":
+                fidx = sorted(rng.choice([-3e9, -2147483648.5, -2147483648.0, 2147483647.0, 2147483647.9, 2147483648.0, 1e300, float("inf")]) for _ in range(n))
+            else:
+                fidx = [round(b * 4) / 4 if rng.random() < 0.5 else b for b in base]
+                if rng.random() < 0.2 and n >= 2:
+                    fidx[rng.randrange(1, n)] -= 3.0          # a decrease somewhere
+            toks = "[" + ",".join("nan" if (f != f or math.isinf(f)) else C.rat(f) for f in fidx) + "]"
+            with np.errstate(invalid="ignore"):
+                import warnings
+                with warnings.catch_warnings():
+                    warnings.simplefilter("ignore")
+                    cast = [int(v) for v in np.array(fidx, dtype=np.float64).astype(np.int32)]
+                    impl = real.raw("aggregate", np.array(fidx, dtype=np.float64), x, op, maxnan)[0]
+            if impl.startswith("ok"):
+                impl += " " + C.ilist(cast)
+            cmp("aggregate(float index)", f"aggwf {op} {maxnan} {toks} {C.flist(vals)}", impl,
+                {"aggindex": [None if f != f else f for f in fidx], "inputs": C.flist(vals), "operator": op, "maxnan": maxnan}, kind + "/" + fk)
+        elif kind == "mismatch":
             m = rng.choice([0, n - 1, n + 1, n + 3])
             a2 = np.arange(m, dtype=np.int64)
             case = {"aggindex": list(range(m)), "inputs": C.flist(vals)}
@@ -934,6 +1179,11 @@ def aggindex_stream(ctx, real, add, do_aggregate):
         except Exception as e:  # noqa
             got, impl = None, f"raised {type(e).__name__}"
         add(tag, req, impl, {"fn": "compute_aggindex", "timestep": ts, "stamps": [str(t) for t in stamps[:8]]}, mode="exact", inq=False)
+        # the hypotheses of the time-index theorems, decided by the model (Stamp.valid, chrono) and by python
+        add("stamps: valid / chronological", f"stampinfo {C.ilist(t.year for t in stamps)} {C.ilist(t.month for t in stamps)} "
+            f"{C.ilist(t.day for t in stamps)} {C.ilist(t.hour for t in stamps)}",
+            "valid=true chrono=" + ("true" if all(stamps[i] <= stamps[i + 1] for i in range(len(stamps) - 1)) else "false"),
+            {"fn": "stampinfo", "stamps": [str(t) for t in stamps[:8]]}, mode=("selfcheck",), inq=True)
         ctx.count(("aggindex", ts, req), got is not None, "aggindex/" + (ts if got is not None else "rejected"),
                   sample={"compute_aggindex": {"timestep": ts, "first": str(stamps[0]), "n": len(stamps)}, "reply": impl[:80]})
         return got
@@ -962,6 +1212,21 @@ def aggindex_stream(ctx, real, add, do_aggregate):
             for ts in steps[:2]:
                 if ts in TIMESTEPS:
                     one(pd.DatetimeIndex(stamps3), stamps3, ts, tag="compute_aggindex(equal length and ends, other stamps)")
+        # the excluded points of aggIndex_fits_int32: an hourly index of a year beyond 2147 does not fit int32 and wraps
+        # in the wrapper's astype(int32) - executed on both sides (wrap32), outside the property
+        if it % 10 == 0:
+            import datetime
+            yb = rng.randint(2148, 2260)
+            t0 = datetime.datetime(yb, rng.randint(1, 12), rng.randint(1, 28), rng.randint(0, 23))
+            sb = [t0 + datetime.timedelta(hours=rng.choice([0, 1, 5, 30]) * k) for k in range(rng.randint(1, 6))]
+            gb = one(pd.DatetimeIndex(sb), sb, "h", tag="compute_aggindex(year beyond 2147)")
+            if gb is not None:
+                vb = [gen_value(rng, "unif") for _ in gb]
+                ob, mb = rng.randint(0, 3), rng.randint(0, 2)
+                add("aggregate(hourly index beyond int32)", f"aggw {ob} {mb} {C.ilist(gb)} {C.flist(vb)}",
+                    real.raw("aggregate", np.array(gb, dtype=np.int64), np.array(vb), ob, mb)[0],
+                    {"aggindex": gb, "inputs": C.flist(vb), "operator": ob, "maxnan": mb}, mode="exact", inq=False)
+                ctx.count(("aggindex-beyond", it), True, "aggindex/h/year>2147(wraps)")
         # end to end: the index the real code built, fed to the real aggregate (oracle applies when it is non-decreasing int32)
         if got is not None and it % 2 == 0 and all(I32MIN <= g <= I32MAX for g in got):
             vals, bounds, _ = gen_values(rng, got) if nondecreasing(got) else ([gen_value(rng, "unif") for _ in got], [(0, len(got))], "")
@@ -1002,18 +1267,26 @@ def history_stream(ctx, real, add):
         op, maxnan = rng.randint(0, 3), gen_maxnan(rng, vals, bounds)
         fn = rng.choice(["aggregate", "aggregate", "flathomogen"])
         hist, last, kept = [], None, []
+        # the same history for the model's `histRun` (one `hist` request at the end)
+        idx0, vals0 = [int(v) for v in idx], list(vals)
+        h_ops, h_ans, h_modes, h_outs, h_scrib, h_inq = [], [], [], [], set(), True
         nsteps = rng.randint(2, 4)
         for step in range(nsteps):
             if step > 0:
                 act = rng.choice(["edit_out", "edit_out", "edit_x", "edit_x", "edit_a", "other_args", "other_fn", "roundtrip"])
                 if act == "edit_out" and last is not None and len(last) > 0:
-                    last[...] = rng.choice([-777.0, 0.0, NAN])          # the caller scribbles over the returned array
+                    sv = rng.choice([-777.0, 0.0, NAN])
+                    last[...] = sv          # the caller scribbles over the returned array
                     kept = [(arr, snap) for (arr, snap) in kept if arr is not last]
+                    r = next(k for k in range(len(h_outs) - 1, -1, -1) if h_outs[k] is last)
+                    h_ops.append(f"sc:{r}:{C.f2h(sv)}")
+                    h_scrib.add(r)
                 elif act == "edit_x":
                     for _ in range(rng.randint(1, max(1, n // 2))):
                         j = rng.randrange(n)
                         vals[j] = rng.choice([NAN, gen_value(rng, "int"), gen_value(rng, "neg"), gen_value(rng, "unif")])
                         x[j] = vals[j]
+                        h_ops.append(f"sv:{j}:{C.f2h(vals[j])}")
                 elif act == "edit_a":
                     k = rng.choice(["shift", "regroup", "dip"])
                     if k == "shift":
@@ -1028,6 +1301,7 @@ def history_stream(ctx, real, add):
                         if idx[j - 1] > I32MIN:
                             idx[j] = idx[j - 1] - 1             # now decreasing: must be rejected
                     a[:] = idx
+                    h_ops.extend(f"si:{j}:{int(v)}" for j, v in enumerate(idx))
                 elif act == "other_args":
                     op, maxnan = rng.randint(0, 3), rng.randint(0, n + 1)
                 elif act == "other_fn":
@@ -1043,6 +1317,14 @@ def history_stream(ctx, real, add):
                 impl, outl = real.raw("flathomogen", a, x, maxnan)
                 req = f"homog {maxnan} {C.ilist(idx)} {C.flist(vals)}"
             hist.append(f"{fn}(op={op},maxnan={maxnan})" if fn == "aggregate" else f"flathomogen(maxnan={maxnan})")
+            h_call = f"ca:{op}:{maxnan}" if fn == "aggregate" else f"ch:{maxnan}"
+            h_mode = ("agg", list(idx), list(vals), op, maxnan) if fn == "aggregate" else ("homog", list(idx), list(vals), maxnan)
+            h_inq = h_inq and in_quantifier(idx, vals, op, maxnan)
+            h_ops.append(h_call)
+            h_ans.append(impl)
+            h_modes.append(h_mode)
+            if outl is not None:
+                h_outs.append(list(outl))
             case = {"fn": fn, "history": list(hist), "aggindex": idx, "inputs": C.flist(vals), "operator": op, "maxnan": maxnan}
             add(f"history/{fn}", req, impl, case, mode=("agg", list(idx), list(vals), op, maxnan) if fn == "aggregate" else ("homog", list(idx), list(vals), maxnan),
                 inq=in_quantifier(idx, vals, op, maxnan))
@@ -1058,6 +1340,13 @@ def history_stream(ctx, real, add):
                 last = None
                 if outl is not None:
                     ctx.finding(f"history/{fn}/not_repeatable", "the same call succeeds then raises", case)
+            h_ops.append(h_call)
+            h_modes.append(h_mode)
+            if last is not None:
+                h_ans.append("ok " + C.flist(last))
+                h_outs.append(last)
+            else:
+                h_ans.append("err rejected")
             # results handed out earlier belong to the caller: a later call must not change them
             for (arr, snap) in kept:
                 now = [float(v) for v in arr]
@@ -1078,6 +1367,12 @@ def history_stream(ctx, real, add):
                     ctx.finding("history/" + sig, what + " (after a history on the same arguments)", dict(c, history=list(hist)))
             vals = resync(f"history/{fn}", vals, [float(v) for v in x], hist)
             idx = [int(v) for v in resync(f"history/{fn}", [float(v) for v in idx], [float(v) for v in a], hist)]
+        # the whole history replayed by the model (histRun): every answer, the final arguments, every array handed out
+        h_impl = ("|".join(h_ans) + " ;idx=" + C.ilist(int(v) for v in a) + " ;vals=" + C.flist(float(v) for v in x)
+                  + " ;outs=" + "|".join(C.flist(float(v) for v in o) for o in h_outs))
+        add("history replayed by the model", f"hist {C.ilist(idx0)} {C.flist(vals0)} [{','.join(h_ops)}]", h_impl,
+            {"fn": "history", "history": list(hist), "aggindex": idx0, "inputs": C.flist(vals0), "ops": h_ops[:40]},
+            mode=("hist", h_modes, sorted(h_scrib)), inq=h_inq)
 
     # ---------------- goue on one pair of arrays
     for it in range(ctx.scale(60, 600)):
@@ -1155,6 +1450,9 @@ def history_stream(ctx, real, add):
             add(f"history/monthly2daily({interp})", f"m2d {interp} {y0} {m0} {C.f2h(0.0)} {C.flist(vals)}",
                 "ok " + C.ilist(counts) + " " + C.flist(out), case,
                 mode=(interp, max([abs(v) for v in vals] + [1e-300])))
+            add(f"history/monthly2daily({interp}) Series", f"m2ds {interp} {y0} {m0} {C.f2h(0.0)} {C.flist(vals)}",
+                "ok " + C.ilist(y * 10000 + m * 100 + d for (y, m, d) in ymd) + " " + C.flist(out), case,
+                mode=("m2ds", interp, max([abs(v) for v in vals] + [1e-300])))
             ctx.count(("hist-m2d", it, step), True, f"history/m2d/{interp}/step{step}")
             v = m2d_violation(y0, m0, vals, out, ymd)
             if v is not None:
@@ -1189,6 +1487,11 @@ def m2d_case(ctx, real, add, y0, m0, vals, interp, minthr):
     complete = all(not isnan(v) and v >= 0 for v in vals) and minthr == 0.0 and len(vals) >= 2
     scale = max([abs(v) for v in vals if not isnan(v)] + [abs(minthr) + 1.0 if not complete else 1e-300])
     add(f"monthly2daily({interp})", req, "ok " + C.ilist(counts) + " " + C.flist(out), case, mode=(interp, scale), inq=complete)
+    # the returned Series itself: every value with its calendar-day stamp (model: m2dSeries - resample / ffill /
+    # days_in_month per day, 31-column grid + NaN filter + date_range)
+    add(f"monthly2daily({interp}) Series", f"m2ds {interp} {y0} {m0} {C.f2h(minthr)} {C.flist(vals)}",
+        "ok " + C.ilist(y * 10000 + m * 100 + d for (y, m, d) in ymd) + " " + C.flist(out), case,
+        mode=("m2ds", interp, scale), inq=complete)
     ctx.count(("m2d", y0, m0, C.flist(vals), interp, minthr), any(not isnan(o) for o in out), f"m2d/{interp}/k={min(len(vals) // 50 * 50, 300)}+",
               sample={"monthly2daily": {"start": [y0, m0], "months": len(vals), "interpolation": interp}, "days": len(out)})
     if not complete:
@@ -1255,12 +1558,22 @@ def finish(ctx, reqs, impls, cases, tags, cmpmode):
             ok = agree_agg(mode[1], mode[2], mode[3], mode[4], impl, rep)
         elif mode[0] == "homog":
             ok = agree_homog(mode[1], mode[2], mode[3], impl, rep)
+        elif mode[0] in ("aggspec", "homogspec"):
+            ok = agree_spec(mode[0], mode[1], impl, rep)
+        elif mode[0] in ("aggbuf", "homogbuf"):
+            ok = agree_buf(mode[0], mode[1], impl, rep)
+        elif mode[0] == "m2ds":
+            ok = agree_m2ds(mode, impl, rep)
+        elif mode[0] == "hist":
+            ok = agree_hist(mode, impl, rep)
+        elif mode[0] == "selfcheck":
+            ok = impl == rep
         else:
             ok = agree_m2d(mode, impl, rep)
         if not inq:
             # outside the property's quantifier: executed on both sides, reported in the evidence, never a disagreement
             outside["executed"] += 1
-            if not ((rejected(impl) and rejected(rep)) or impl == rep):
+            if not (ok or (rejected(impl) and rejected(rep)) or impl == rep):
                 outside["differences"] += 1
                 if len(outside["samples"]) < 8:
                     outside["samples"].append({"tag": tag, "request": req[:160], "impl": impl[:80], "model": rep[:80]})
